@@ -15,6 +15,7 @@
 #include <amgcl/coarsening/plain_aggregates.hpp>
 #include <amgcl/coarsening/tentative_prolongation.hpp>
 #include <amgcl/relaxation/ilu0.hpp>
+#include <amgcl/solver/skyline_lu.hpp>
 #include "vq_access.hpp"
 
 using vq::Q; using vq::Tok; using vq::show;
@@ -105,6 +106,33 @@ template <class V> static std::string do_ilu0(Tok &t) {
         return "EXC runtime_error";
     }
 }
+
+// skyline A rhs x0: solver::skyline_lu<V> (default ordering cuthill_mckee<false>): the private tables after the
+// constructor (perm, ptr, L, U, D = inverted pivots) and the result of one solve (x and the scratch y)
+template <class V> struct SkyT { typedef amgcl::solver::skyline_lu<V> Sk; };
+#define SKY_MEMBER(tag, V, T, m) struct tag { typedef T SkyT<V>::Sk::*type; }; template struct Steal<tag, &SkyT<V>::Sk::m>;
+SKY_MEMBER(sk_perm_q, Q, std::vector<int>, perm) SKY_MEMBER(sk_ptr_q, Q, std::vector<int>, ptr)
+SKY_MEMBER(sk_L_q, Q, std::vector<Q>, L) SKY_MEMBER(sk_U_q, Q, std::vector<Q>, U) SKY_MEMBER(sk_D_q, Q, std::vector<Q>, D)
+SKY_MEMBER(sk_y_q, Q, std::vector<Q>, y)
+static std::string op_skyline_q(Tok &t) {
+    auto A = t.crsT<Q>(); auto rhs = t.vecT<Q>(); auto x = t.vecT<Q>();
+    try {
+        SkyT<Q>::Sk S(*A);
+        std::ostringstream os;
+        os << "perm=" << vq::show_ivec(S.*Stolen<sk_perm_q>::ptr) << " ptr=" << vq::show_ivec(S.*Stolen<sk_ptr_q>::ptr)
+           << " L=" << show(S.*Stolen<sk_L_q>::ptr) << " U=" << show(S.*Stolen<sk_U_q>::ptr) << " D=" << show(S.*Stolen<sk_D_q>::ptr);
+        S(rhs, x);
+        os << " x=" << show(x) << " y=" << show(S.*Stolen<sk_y_q>::ptr);
+        return os.str();
+    } catch (const std::runtime_error &e) { return "EXC zero_pivot"; }
+}
+template <class V> static std::string do_skyline_nodump(Tok &t) {     // double: the result of the solve only
+    auto A = t.crsT<V>(); auto rhs = t.vecT<V>(); auto x = t.vecT<V>();
+    try { typename SkyT<V>::Sk S(*A); S(rhs, x); return show(x); }
+    catch (const std::runtime_error &e) { return "EXC zero_pivot"; }
+}
+VQ_OP(ll_skyline)  { return op_skyline_q(t); }
+VQ_OP(lld_skyline) { return do_skyline_nodump<double>(t); }
 
 VQ_OP(ll_plain_aggregates)  { return do_plain_aggregates<Q>(t); }
 VQ_OP(lld_plain_aggregates) { return do_plain_aggregates<double>(t); }
